@@ -40,6 +40,7 @@ type peer struct {
 	b       *rtmp.Protocol
 	bout    *bytes.Buffer
 	extra   string // "", "status-before": an onStatus call and a user-control ping precede every response
+	answered int
 }
 
 type rwBuf struct{ *bytes.Buffer }
@@ -88,6 +89,9 @@ func (p *peer) onBytes(b []byte) []byte {
 			uc.EventData = 77
 			p.b.WritePacket(uc, 0)
 		}
+		if name == "createStream" || name == "connect" {
+			p.answered++
+		}
 		switch name {
 		case "createStream":
 			res := rtmp.NewCreateStreamResPacket(amf0.Number(tid))
@@ -119,6 +123,12 @@ type schedConn struct {
 	// deliver, like a synchronous pipe or a TCP connection with full buffers
 	cap      int
 	maxRead  int // > 0: one transport read returns at most this many bytes (segmented delivery)
+	// one transport write failure: the At-th Write call either hands all its bytes over (the peer answers) and still
+	// reports an error (a deadline that expires as the last byte leaves), or accepts nothing
+	fault      *wfault
+	nW         int
+	fired      bool
+	writerDone func() bool
 	pending  []byte
 	inbound  []byte
 	outLen   int
@@ -141,8 +151,30 @@ func (c *schedConn) refill() {
 	}
 }
 
+type wfault struct {
+	At      int
+	Deliver bool
+}
+
+var errLate = fmt.Errorf("write deadline expired as the last byte left (injected)")
+var errNothing = fmt.Errorf("transport write failed, nothing accepted (injected)")
+
 func (c *schedConn) Write(p []byte) (int, error) {
 	vsched.Await("transport.write", func() bool { return c.cap <= 0 || len(c.pending) == 0 })
+	idx := c.nW
+	c.nW++
+	if c.fault != nil && !c.fired && idx == c.fault.At {
+		c.fired = true
+		if !c.fault.Deliver {
+			c.writeLog = append(c.writeLog, 0)
+			return 0, errNothing
+		}
+		c.outLen += len(p)
+		c.writeLog = append(c.writeLog, len(p))
+		c.pending = append(c.pending, c.peer.onBytes(p)...)
+		c.refill()
+		return len(p), errLate
+	}
 	c.outLen += len(p)
 	c.writeLog = append(c.writeLog, len(p))
 	c.pending = append(c.pending, c.peer.onBytes(p)...)
@@ -151,7 +183,12 @@ func (c *schedConn) Write(p []byte) (int, error) {
 }
 
 func (c *schedConn) Read(p []byte) (int, error) {
-	vsched.Await("transport.read", func() bool { return len(c.inbound) > 0 })
+	vsched.Await("transport.read", func() bool {
+		return len(c.inbound) > 0 || (c.fired && c.writerDone != nil && c.writerDone())
+	})
+	if len(c.inbound) == 0 {
+		return 0, io.EOF // after the failed write the writer gave up: the peer has nothing more to say
+	}
 	if c.maxRead > 0 && len(p) > c.maxRead {
 		p = p[:c.maxRead]
 	}
@@ -345,6 +382,68 @@ func scenarioSeg(name string, reqs []req, extra string, bounds []int, prune bool
 	return s
 }
 
+// faultScenario: as scenario(), with one transport write failure; only what the property promises is judged: requests
+// written before the failure succeed, and every request whose bytes reached the peer gets its response matched and
+// decoded (the transport reports EOF to the reader once the writer has given up and everything was delivered).
+func faultScenario(name string, reqs []req, f wfault, bounds []int) mc.Scenario {
+	s := scenarioSeg(name, reqs, "", bounds, true, 0, 0)
+	inner := s.Setup
+	s.Setup = func(x *vsched.Exec) {
+		inner(x)
+		d := x.Data.(*execData)
+		ff := f
+		d.conn.fault = &ff
+		d.conn.writerDone = func() bool { return d.wDone == len(reqs) }
+	}
+	s.Check = func(x *vsched.Exec) (string, string, string) {
+		d := x.Data.(*execData)
+		recs := d.recs
+		if d.conn.fired && len(recs) > 0 && strings.Contains(recs[len(recs)-1].Err, "EOF") {
+			recs = recs[:len(recs)-1]
+		}
+		outcome := fmt.Sprintf("recs=%v reads=%v werrs=%v", d.recs, d.conn.readLog, d.wErrs)
+		key, what := "", ""
+		answered := d.conn.peer.answered
+		switch {
+		case !d.conn.fired:
+			key, what = judgeRecords(reqs, d.recs, d.wErrs, txDump(d.a), 0, d.others)
+		default:
+			for i, r := range recs {
+				if r.Err != "" {
+					key, what = "reader-error/after-write-failure", fmt.Sprintf("response %d: %s", i, r.Err)
+					if strings.Contains(r.Err, "No matched request") {
+						key = "spurious-no-matched-request/after-write-failure"
+						what += " (the request's bytes had reached the peer, which answered; the write call reported a failure)"
+					}
+					break
+				}
+			}
+			if key == "" && len(recs) != answered {
+				key, what = "response-count/after-write-failure", fmt.Sprintf("the peer answered %d requests, %d responses were decoded: %+v", answered, len(recs), d.recs)
+			}
+			for i := 0; key == "" && i < len(recs); i++ {
+				want := "CreateStreamRes"
+				if reqs[i].Kind != "createStream" {
+					want = "ConnectAppRes"
+				}
+				if recs[i].Type != want || recs[i].Tid != reqs[i].Tid {
+					key, what = "wrong-response-type/after-write-failure", fmt.Sprintf("response %d decoded as %s tid=%v, request was %s tid=%v", i, recs[i].Type, recs[i].Tid, reqs[i].Kind, reqs[i].Tid)
+				}
+			}
+		}
+		if key != "" {
+			what += fmt.Sprintf("\nfault: transport write #%d, bytes delivered=%v; writer results %q\nschedule (thread:point): %s", f.At, f.Deliver, d.wErrs, strings.Join(x.Trace, " "))
+		}
+		return outcome, key, what
+	}
+	base := s.StateKey
+	s.StateKey = func(x *vsched.Exec) string {
+		d := x.Data.(*execData)
+		return fmt.Sprintf("%s f=%v nw=%d", base(x), d.conn.fired, d.conn.nW)
+	}
+	return s
+}
+
 func scenarios(c *hl.Ctx) []mc.Scenario {
 	unb := []int{0, 1, 2, 3, -1}
 	cs := func(t ...float64) []req {
@@ -373,6 +472,16 @@ func scenarios(c *hl.Ctx) []mc.Scenario {
 		scenarioSeg("segmented-reads(7): connect+createStream+other-traffic", []req{{"connect", 1}, {"createStream", 2}}, "status-before", []int{0, 1, 2}, true, 0, 7),
 		scenarioSeg("segmented-reads(1): 2-createStream", cs(2, 3), "", []int{0, 1, 2}, true, 0, 1),
 	)
+	// transport write failures at every position of the write history
+	three := []req{{"connect", 1}, {"createStream", 2}, {"createStream", 3}}
+	for at := 0; at < 3; at++ {
+		l = append(l,
+			faultScenario(fmt.Sprintf("write-failure@%d(bytes delivered): connect+2-createStream", at), three, wfault{at, true}, unb),
+			faultScenario(fmt.Sprintf("write-failure@%d(nothing accepted): connect+2-createStream", at), three, wfault{at, false}, unb),
+		)
+	}
+	// a retried request: the second createStream reuses the transaction id of the first, outstanding one, and its write fails
+	l = append(l, faultScenario("write-failure@1(nothing accepted): createStream retried with the same transaction id", cs(2, 2), wfault{1, false}, unb))
 	if c.Thorough() {
 		l = append(l,
 			scenarioSeg("segmented-reads(7): connect+createStream+other-traffic, unbounded", []req{{"connect", 1}, {"createStream", 2}}, "status-before", unb, true, 0, 7),
@@ -452,7 +561,7 @@ func racePass(c *hl.Ctx) {
 }
 
 func run(c *hl.Ctx) {
-	c.Rule("E1: every interleaving of writer W (WritePacket per request) and reader R (ReadMessage+DecodeMessage per response) on one Protocol; scheduling points: transport Write (before it performs; the peer's answer becomes readable inside it), transport Read (enabled iff bytes are readable), Lock/Unlock of the transaction-table mutex (R1). Transport variants: unlimited, back-pressured (1/8/64 bytes in flight, the peer accepts the next request only when its output is delivered) and segmented delivery (reads of at most 1/3/7 bytes, so the reader is descheduled inside chunk headers and payloads). Bounds iterated 0,1,2,3,unbounded; state-key pruning for the larger scenarios. state = distinct observable outcome (records + read sizes); transition = scheduling step.")
+	c.Rule("E1: every interleaving of writer W (WritePacket per request) and reader R (ReadMessage+DecodeMessage per response) on one Protocol; scheduling points: transport Write (before it performs; the peer's answer becomes readable inside it), transport Read (enabled iff bytes are readable), Lock/Unlock of the transaction-table mutex (R1). Transport variants: unlimited, back-pressured (1/8/64 bytes in flight, the peer accepts the next request only when its output is delivered) and segmented delivery (reads of at most 1/3/7 bytes, so the reader is descheduled inside chunk headers and payloads). Transport write failures: the k-th Write either delivers its bytes and still reports an error or accepts nothing, for every k (responses to delivered requests must still be matched). Bounds iterated 0,1,2,3,unbounded; state-key pruning for the larger scenarios. state = distinct observable outcome (records + read sizes); transition = scheduling step.")
 	c.Assume("the peer answers in request order, each answer complete and readable before the request's Write returns", "unsynchronised accesses between scheduling points are judged by the separate free-running race-detector pass", "transaction table observed by reflection (skipped if the field path input.transactions disappears)")
 	if c.Mode() == "race" {
 		racePass(c)
